@@ -154,17 +154,17 @@ type proc struct {
 }
 
 type world struct {
-	c      *hlib.RunCtx
-	s      *simrt.Sim
-	prop   string
-	tele   string
-	local  string
-	views  map[string]*view
-	lastFs int
-	procs  []*proc
-	begun  map[string]uint64 // raw counter name -> sum of amounts of Add calls begun (low 64 bits)
+	c       *hlib.RunCtx
+	s       *simrt.Sim
+	prop    string
+	tele    string
+	local   string
+	views   map[string]*view
+	lastFs  int
+	procs   []*proc
+	begun   map[string]uint64 // raw counter name -> sum of amounts of Add calls begun (low 64 bits)
 	begunHi map[string]uint64 // carries out of begun: the saturation family exceeds 2^64
-	added  map[string]uint64 // raw counter name -> sum of amounts of Add calls that returned (by live or dead procs)
+	added   map[string]uint64 // raw counter name -> sum of amounts of Add calls that returned (by live or dead procs)
 	// per process accounting for C04
 	begunBy map[*simrt.Proc]map[string]uint64
 	doneBy  map[*simrt.Proc]map[string]uint64
